@@ -2,6 +2,7 @@ CONSTANTS
   Model = "univ"
   MaxSteps = 4
   Hist = FALSE
+  AllowDie = FALSE
   TransOnlyAsserted = FALSE
   TransOutOnly = FALSE
   NoInverseOfInferred = FALSE
